@@ -41,11 +41,71 @@ theorem scan_spec (num : Nat) : ∀ (fuel count j : Nat), j < fuel → 1 ≤ num
         · have : j' + 1 - (k + 1) = j' - k := by omega
           rw [this]; exact hhi
 
-theorem ten2int_int2ten_small (r : Nat) (h1 : 1 ≤ r) (h2 : r < 2 ^ 30) : ten2int (int2ten r) = r := by
+theorem ten2int_int2ten_exact (r : Nat) (h1 : 1 ≤ r) (h2 : r < 2 ^ 31) : ten2int (int2ten r) = r := by
   by_cases hr1 : r ≤ 1
   · have : r = 1 := by omega
     subst this; decide
   · unfold int2ten
+    simp only [hr1, if_false]
+    obtain ⟨k, hk, hs, hlo, hhi⟩ := scan_spec r 32 0 31 (by omega) (by omega) (by omega : r < 2 ^ (31 + 1))
+    have h31 : (0x80000000 : Nat) = 2 ^ 31 := by decide
+    rw [h31, hs]
+    simp only [Nat.zero_add]
+    have hk1 : 1 ≤ k := by
+      rcases Nat.eq_zero_or_pos k with h0 | h0
+      · subst h0; simp at hlo; omega
+      · exact h0
+    have hk30 : k ≤ 30 := by
+      rcases Nat.lt_or_ge k 31 with h | h
+      · omega
+      · have : k = 31 := by omega
+        subst this; simp at hhi; omega
+    have hpow : 2 ^ (31 - k + 1) * 2 ^ k = 2 ^ 32 := by
+      rw [← Nat.pow_add]; congr 1; omega
+    have hpow2 : 2 ^ (31 - k) * 2 ^ k = 2 ^ 31 := by
+      rw [← Nat.pow_add]; congr 1; omega
+    have hp : 0 < 2 ^ k := Nat.two_pow_pos _
+    have hlt : r * 2 ^ k < 2 ^ 32 := by
+      rw [← hpow]; exact Nat.mul_lt_mul_of_pos_right hhi hp
+    have hge31 : 2 ^ 31 ≤ r * 2 ^ k := by
+      rw [← hpow2]; exact Nat.mul_le_mul_right _ hlo
+    rw [Nat.mod_eq_of_lt hlt]
+    generalize hsh : r * 2 ^ k = sh at hlt hge31
+    have hb1 : wrapU 8 (30 - (k : Int)) = 30 - k := by
+      unfold wrapU
+      have : (30 - (k : Int)) % (2 ^ 8 : Int) = ((30 - k : Nat) : Int) := by omega
+      rw [this]; simp
+    unfold ten2int
+    simp only [List.getD_cons_zero, List.getD_cons_succ, hb1]
+    have c1 : ¬ (0x40 : Nat) ≥ 0x80 := by decide
+    have c2 : ¬ (0x40 : Nat) ≤ 0x3F := by decide
+    have c3 : ¬ (0x40 : Nat) > 0x40 := by decide
+    have c4 : ¬ (30 - k > 0x1D) := by omega
+    simp only [c1, c2, c3, c4, if_false]
+    have hsum : sh / 2 ^ 24 % 256 * 2 ^ 23 + sh / 2 ^ 16 % 256 * 2 ^ 15 + sh / 2 ^ 8 % 256 * 2 ^ 7 + sh % 256 / 2 = sh / 2 := by
+      simp only [Nat.reducePow]
+      omega
+    rw [hsum]
+    have hsub : 29 - (30 - k) = k - 1 := by omega
+    rw [hsub]
+    have : sh / 2 / 2 ^ (k - 1) = r := by
+      rw [Nat.div_div_eq_div_mul, ← hsh]
+      have : 2 * 2 ^ (k - 1) = 2 ^ k := by
+        have : k = (k - 1) + 1 := by omega
+        rw [this, Nat.pow_succ]; simp; omega
+      rw [this, Nat.mul_div_cancel _ hp]
+    rw [this]
+
+theorem int2ten_length (r : Nat) : (int2ten r).length = 10 := by
+  unfold int2ten; split <;> rfl
+
+/-! ### the old rule -/
+
+theorem ten2intOld_int2tenOld_small (r : Nat) (h1 : 1 ≤ r) (h2 : r < 2 ^ 30) : ten2intOld (int2tenOld r) = r := by
+  by_cases hr1 : r ≤ 1
+  · have : r = 1 := by omega
+    subst this; decide
+  · unfold int2tenOld
     have hge : ¬ r ≥ 0x40000000 := by omega
     simp only [hr1, hge, if_false]
     obtain ⟨k, hk, hs, hlo, hhi⟩ := scan_spec r 32 0 30 (by omega) (by omega) (by omega : r < 2 ^ (30 + 1))
@@ -80,7 +140,7 @@ theorem ten2int_int2ten_small (r : Nat) (h1 : 1 ≤ r) (h2 : r < 2 ^ 30) : ten2i
       unfold wrapU
       have : (29 - (k : Int)) % (2 ^ 8 : Int) = ((29 - k : Nat) : Int) := by omega
       rw [this]; simp
-    unfold ten2int
+    unfold ten2intOld
     simp only [List.getD_cons_zero, List.getD_cons_succ, hb1]
     have c1 : ¬ (0x40 : Nat) ≥ 0x80 := by decide
     have c2 : ¬ (0x40 : Nat) ≤ 0x3F := by decide
@@ -99,15 +159,15 @@ theorem ten2int_int2ten_small (r : Nat) (h1 : 1 ≤ r) (h2 : r < 2 ^ 30) : ten2i
       rw [this, Nat.mul_div_cancel _ hp]
     rw [this]
 
-theorem ten2int_int2ten_big (r : Nat) (h : 2 ^ 30 ≤ r) : ten2int (int2ten r) = 800000000 := by
-  unfold int2ten
+theorem ten2intOld_int2tenOld_big (r : Nat) (h : 2 ^ 30 ≤ r) : ten2intOld (int2tenOld r) = 800000000 := by
+  unfold int2tenOld
   have h1 : ¬ r ≤ 1 := by omega
   have h2 : r ≥ 0x40000000 := by omega
   simp only [h1, h2, if_false, if_true]
   decide
 
-theorem int2ten_length (r : Nat) : (int2ten r).length = 10 := by
-  unfold int2ten; split
+theorem int2tenOld_length (r : Nat) : (int2tenOld r).length = 10 := by
+  unfold int2tenOld; split
   · rfl
   · split <;> rfl
 
